@@ -92,15 +92,15 @@ end
 structure Sch where
   owners : Nat → Nat → List Nat          -- type, field: services exposing it
   custom : Nat → Nat → Option Nat        -- `ServiceSelector`
-  pick : Nat → Nat → Nat                 -- the service `selectService` falls on when the current one cannot serve the field
+  pick : Nat → Q → Nat                   -- the service `selectService` falls on when the current one cannot serve the field (Go map order: may differ per selection)
   child : Nat → Nat → Option Nat         -- type, field: object type of the field's values (none: scalar)
 
 /-- `selectService` -/
-def Sch.choose (σ : Sch) (t cur n : Nat) : Nat :=
-  if n = TYPENAME then cur
-  else match σ.custom t n with
+def Sch.choose (σ : Sch) (t cur : Nat) (q : Q) : Nat :=
+  if q.name = TYPENAME then cur
+  else match σ.custom t q.name with
     | some c => c
-    | none => if (σ.owners t n).contains cur then cur else σ.pick t n
+    | none => if (σ.owners t q.name).contains cur then cur else σ.pick t q
 
 inductive Plan where
   | mk (path : List Nat) (svc typ : Nat) (sel : List Q) (after : List Plan)
@@ -123,7 +123,7 @@ def insertSorted (x : Nat) : List Nat → List Nat
 
 def others (σ : Sch) (svc t : Nat) : List Q → List Nat
   | [] => []
-  | q :: qs => let c := σ.choose t svc q.name
+  | q :: qs => let c := σ.choose t svc q
     if c = svc then others σ svc t qs else insertSorted c (others σ svc t qs)
 
 def fedSel : Q := .sel FED FED [.sel 2 2 []]   -- `_federation { id }` (name 2: the key field)
@@ -141,7 +141,7 @@ def planSels (σ : Sch) (cur t want : Nat) : List Q → List Q × List Plan
   | [] => ([], [])
   | q :: qs =>
     let rest := planSels σ cur t want qs
-    if σ.choose t cur q.name = want then
+    if σ.choose t cur q = want then
       let one := planSel σ want t q
       (one.1 :: rest.1, one.2 ++ rest.2)
     else rest
@@ -253,7 +253,7 @@ mutual
 def fusedSels (σ : Sch) (st : Store) (cur want : Nat) : List Q → Ref → List (Nat × R)
   | [], _ => []
   | q :: qs, r =>
-    if σ.choose r.t cur q.name = want then fusedSel σ st want q r :: fusedSels σ st cur want qs r
+    if σ.choose r.t cur q = want then fusedSel σ st want q r :: fusedSels σ st cur want qs r
     else fusedSels σ st cur want qs r
 def fusedSel (σ : Sch) (st : Store) (svc : Nat) : Q → Ref → Nat × R
   | .sel a n kids, r =>
